@@ -1,6 +1,7 @@
 import TCV.Lemmas.Inj
 import TCV.Lemmas.Sort
 import TCV.Model.Key
+import TCV.Lemmas.KeyInj
 /-!
 # C03 — different computations get different storage locations
 
@@ -45,6 +46,117 @@ theorem keyOf_eq_imp_text_eq (H : Str → Str) (pr : Char → Bool)
     (ps ps' : List Param) (ns ns' : Option Str) (ins ins' : List (Str × Str))
     (h : keyOf H pr ps ns ins = keyOf H pr ps' ns' ins') : keyText pr ps ns ins = keyText pr ps' ns' ins' :=
   hH _ _ h
+
+/-! ## the whole key text -/
+
+/-- what a task persists of its parameters: (name, value up to mapping order) of every parameter that takes part, sorted by name -/
+def persistedView (pr : Char → Bool) (ps : List Param) : List (Str × PVal) :=
+  (isort (fun a b : Param => strLe a.name b.name) ps).filterMap
+    (fun p => if (paramRepr pr p).isSome then some (p.name, canon p.value) else none)
+
+/-- what a task persists of its inputs: (name relative to the task's namespace, key) sorted by full name -/
+def inputsView (ns : Option Str) (ins : List (Str × Str)) : List (Str × Str) :=
+  (isort (fun a b : Str × Str => strLe a.1 b.1) ins).map (fun nk => (stripNs ns nk.1, nk.2))
+
+theorem paramRepr_some_eq (pr : Char → Bool) (p : Param) (t : Str) (hp : p.isPath = false)
+    (hr : paramRepr pr p = some t) : t = seg pr (p.name, canon p.value) := by
+  unfold paramRepr at hr
+  cases hi : p.ignore
+  · cases hc : (p.dpd && isDefaultVal p)
+    · simp only [hi, hc, Bool.false_eq_true, if_false, Option.some.injEq] at hr
+      rw [← hr]
+      simp [seg, valueRepr, hp, reprInst]
+    · simp only [hi, hc, Bool.false_eq_true, if_false, if_true] at hr
+      cases hr
+  · simp only [hi, if_true] at hr
+    cases hr
+
+theorem filterMap_seg (pr : Char → Bool) : ∀ (l : List Param), (∀ p ∈ l, p.isPath = false) →
+    l.filterMap (paramRepr pr) =
+      (l.filterMap (fun p => if (paramRepr pr p).isSome then some (p.name, canon p.value) else none)).map (seg pr)
+  | [], _ => rfl
+  | p :: r, h => by
+    have hp := h p (by simp)
+    have ih := filterMap_seg pr r (fun q hq => h q (by simp [hq]))
+    simp only [List.filterMap_cons]
+    cases hr : paramRepr pr p with
+    | none => simp [ih]
+    | some t =>
+      have ht := paramRepr_some_eq pr p t hp hr
+      simp [ih, ht]
+
+theorem registryRepr_eq_regText (pr : Char → Bool) (ps : List Param) (h : ∀ p ∈ ps, p.isPath = false) :
+    registryRepr pr ps = regText pr (persistedView pr ps) := by
+  have hs : ∀ p ∈ isort (fun a b : Param => strLe a.name b.name) ps, p.isPath = false :=
+    fun p hp => h p ((isort_perm _ ps).subset hp)
+  simp only [registryRepr, regText, persistedView]
+  rw [filterMap_seg pr _ hs]
+  rfl
+
+theorem inputsRepr_eq (ns : Option Str) (ins : List (Str × Str)) :
+    inputsRepr ns ins = joinHash ((inputsView ns ins).map iseg) := by
+  unfold inputsRepr inputsView
+  simp only [List.map_map]
+  congr 1
+
+/-- **C03, key-text level (partial, K1 class excluded).**  Two tasks with the same key text persist the same
+parameter names and values (up to mapping order, at any depth) and the same input names and input keys: every
+parameter value, every parameter name, the `None` marker, every input name and every input key can be read back from the
+text.  Hypotheses: parameter names are identifier-like, persisted values are well-formed and quote-free (`ParamsOK`),
+input names contain no `=`, keys no `#` (hex); `Path`-typed parameters (escaped with Python's `repr`) are excluded. -/
+theorem keyText_injective_partial (pr : Char → Bool) (ps ps' : List Param) (ns ns' : Option Str) (ins ins' : List (Str × Str))
+    (hp : ∀ p ∈ ps, p.isPath = false) (hp' : ∀ p ∈ ps', p.isPath = false)
+    (hok : ParamsOK (persistedView pr ps)) (hok' : ParamsOK (persistedView pr ps'))
+    (hin : InputsOK (inputsView ns ins)) (hin' : InputsOK (inputsView ns' ins'))
+    (h : keyText pr ps ns ins = keyText pr ps' ns' ins') :
+    persistedView pr ps = persistedView pr ps' ∧ inputsView ns ins = inputsView ns' ins' := by
+  unfold keyText at h
+  rw [registryRepr_eq_regText pr ps hp, registryRepr_eq_regText pr ps' hp', inputsRepr_eq, inputsRepr_eq] at h
+  have h1 := regText_inj pr _ _ _ _ hok hok' (by simpa [dollars] using h)
+  exact ⟨h1.1, isegs_inj _ _ hin hin' h1.2⟩
+
+/-- with a hash that is collision-free on the occurring texts: **equal keys ⇒ equal persisted content**; contrapositive:
+a difference in any persisted parameter value (at any depth), parameter name, input name or input key gives a different key.
+Since input keys are themselves keys, a change anywhere upstream moves every key downstream (Merkle). -/
+theorem keyOf_injective_partial (H : Str → Str) (pr : Char → Bool)
+    (hH : ∀ a b, (H a).take 32 = (H b).take 32 → a = b)
+    (ps ps' : List Param) (ns ns' : Option Str) (ins ins' : List (Str × Str))
+    (hp : ∀ p ∈ ps, p.isPath = false) (hp' : ∀ p ∈ ps', p.isPath = false)
+    (hok : ParamsOK (persistedView pr ps)) (hok' : ParamsOK (persistedView pr ps'))
+    (hin : InputsOK (inputsView ns ins)) (hin' : InputsOK (inputsView ns' ins'))
+    (h : keyOf H pr ps ns ins = keyOf H pr ps' ns' ins') :
+    persistedView pr ps = persistedView pr ps' ∧ inputsView ns ins = inputsView ns' ins' :=
+  keyText_injective_partial pr ps ps' ns ns' ins ins' hp hp' hok hok' hin hin' (hH _ _ h)
+
+/-- the Merkle step, contrapositive form: a task whose inputs (names or keys — the keys of the upstream computations)
+differ from another's gets a different key; so does one whose persisted parameters differ.  By induction over the DAG a
+change anywhere upstream moves every key downstream. -/
+theorem downstream_moves (H : Str → Str) (pr : Char → Bool)
+    (hH : ∀ a b, (H a).take 32 = (H b).take 32 → a = b)
+    (ps ps' : List Param) (ns ns' : Option Str) (ins ins' : List (Str × Str))
+    (hp : ∀ p ∈ ps, p.isPath = false) (hp' : ∀ p ∈ ps', p.isPath = false)
+    (hok : ParamsOK (persistedView pr ps)) (hok' : ParamsOK (persistedView pr ps'))
+    (hin : InputsOK (inputsView ns ins)) (hin' : InputsOK (inputsView ns' ins'))
+    (hdiff : persistedView pr ps ≠ persistedView pr ps' ∨ inputsView ns ins ≠ inputsView ns' ins') :
+    keyOf H pr ps ns ins ≠ keyOf H pr ps' ns' ins' := by
+  intro h
+  have := keyOf_injective_partial H pr hH ps ps' ns ns' ins ins' hp hp' hok hok' hin hin' h
+  rcases hdiff with hd | hd
+  · exact hd this.1
+  · exact hd this.2
+
+/-- concrete instance: the hypotheses are met and the views are what one expects -/
+example : persistedView (fun _ => true)
+    [{ name := "b".toList, value := .atom "1".toList, default := some (.atom "1".toList), ignore := false, dpd := true },
+     { name := "c".toList, value := .dict [("y".toList, .atom "2".toList), ("x".toList, .str "s".toList)], default := none, ignore := false, dpd := false },
+     { name := "a".toList, value := .str "x".toList, default := none, ignore := true, dpd := false }]
+    = [("c".toList, .dict [("x".toList, .str "s".toList), ("y".toList, .atom "2".toList)])] := by rfl
+
+example : ParamsOK [("c".toList, PVal.dict [("x".toList, .str "s".toList), ("y".toList, .atom "2".toList)])] := by
+  simp [ParamsOK, NameOK, WF, WFD, isDelim, q]
+
+example : InputsOK (inputsView (some "n".toList) [("n::g:up".toList, "0af3".toList)]) := by
+  simp [inputsView, isort, insertBy, stripNs, InputsOK]
 
 /-! non-vacuity of the partial theorem's hypotheses on a nested, non-trivial value -/
 example : WF (canon (.dict [("b".toList, .list [.atom "1".toList, .str "x y".toList]), ("a".toList, .atom "None".toList)])) := by
